@@ -22,9 +22,15 @@ RULE = ("seeded generator over groups of 2-4 conditions (PINN, SingleModule, Mea
         "AdaptiveWeights) over a common set of 1-3 variables x shared objects (data_functions dict with 0-3 functions, "
         "domain objects, static-forever or grid sampler objects, default-argument tensors, model, Parameter) x sampler "
         "trees (static or not, deterministic: every top-level sampler object draws with seed+call count) x random "
-        "construction order x random evaluation order in 2-4 rounds.  A case is non-trivial when at least two conditions "
+        "construction order x random evaluation order in 2-4 rounds; additionally (a) 'samekey' groups: 2-4 conditions on ONE "
+        "never-resampled StaticSampler object, each with its own data_functions dict using the SAME keys for DIFFERENT "
+        "function bodies (sometimes the same) and residuals with the same parameter names, (b) 'varsets' groups: "
+        "user-supplied UserFunction objects / plain functions with declared defaults (data functions f(x, t=default), one "
+        "residual body, sampler filter functions) shared by conditions whose samplers provide different variable sets "
+        "((x,t) products in both orders or product domains vs x only, partly with equal point counts); fun/args/defaults of "
+        "every user-supplied UserFunction are snapshotted.  A case is non-trivial when at least two conditions "
         "were compared alone vs in company in every round; distinct = (sorted kinds, sharing flags, static pattern, "
-        "#data functions, shared sampler)")
+        "#data functions, shared sampler, group mode and its variable-set / wrapping pattern)")
 REQUIRED_REACH = ["Condition._setup_data_functions", "StaticSampler.sample_points", "PeriodicCondition.__init__",
                   "SingleModuleCondition.__init__", "IntegroPINNCondition.__init__",
                   "DeepONetSingleModuleCondition.__init__", "UserFunction.__call__"]
@@ -457,6 +463,9 @@ def run_case(g):
                                             cond=c["kind"], sampler=W.sampler_class(c["sampler"]), world=name))
                     break
     C["losses_compared"] = compared
+    C["groups_" + g.get("mode", "classic")] = 1
+    C["user_function_objects_shared"] = sum(1 for b in bb.values() for f in list(b.user_dict.values()) + [b.residual]
+                                            if _is_ufun(f))
     C["conditions"] = n
     C["periodic_conditions"] = sum(1 for c in g["conds"] if c["kind"] == "periodic")
     res["nontrivial"] = compared >= 2 * g["rounds"] and n >= 2
